@@ -122,7 +122,14 @@ def gen_strings(tier, rnd):
     # every Unicode class at every site: C0/DEL/C1 controls, 1..4-byte characters, separators, noncharacters
     for c in ['\x01', '\x08', '\x0b', '\x0c', '\x1b', '\x1f', '\x7f', '\x80', '\x85', '\x9f', '\xa0', '\u0378', '\u2028', '\ufeff', '\uffff', '\U0001f600', '\U0010ffff']:
         strings += [c, 'a' + c, c + 'b', 'a' + c + 'b', c + c, c + '"', '\\' + c]
-    strings += ['{}', '{mdt}', 'v{}', '{0}', '%s', '$mdt', '/dev/x', '"/dev/x"', '(', ')', 'a(b', ':)']
+    strings += ['{}', '{mdt}', 'v{}', '{0}', '%s', '$mdt', '/dev/x', '"/dev/x"', '(', ')', 'a(b', ':)',
+                # text that looks like a placeholder of some templating scheme, alone and embedded
+                '@MDT@', '@MDT@*', 'x@MDT@', '<mdt>', '__MDT__', '%MDT%', '${mdt}', '{{mdt}}', '%(mdt)s', '#{mdt}', '$1', '\\1', '{device}', '@@', '@DEVICE@', 'MDT']
+    try:
+        import srcdict
+        strings += [w for w in srcdict.word_like(srcdict.literals(), 14) if 0 < len(w) <= 14][:400]
+    except Exception:
+        pass
     g = 0
     for name, (build, strs, benign) in sites.items():
         for s in strings:
@@ -295,6 +302,44 @@ def key_twin_trees():
     return trees
 
 
+SPECIAL_NAMES = ['/dev/stdout', '/dev/stderr', '/dev/null', '/dev/fd/1', '/proc/self/fd/1', '-', 'stdout', '/dev/tty', 'CON', 'NUL', '/dev/stdin', '&1', '>out']
+
+
+def special_name_trees():
+    """File destinations whose NAME means something to other tools, alone and next to the stdout action of the same kind
+    (both orders): each is an ordinary file destination with its own table entry."""
+    trees = []
+    for nm in SPECIAL_NAMES:
+        n = sx_str(nm)
+        for (std, fil) in [('(A Print)', '(A (FilePrint %s))' % n), ('(A PrintNull)', '(A (FilePrintNull %s))' % n),
+                           ('(A (PrintFormatted (# (Fld Name) (Spc Newline))))', '(A (FilePrintFormatted %s (# (Fld Name) (Spc Newline))))' % n),
+                           ('(A (PrintFormatted (# (Fld Name))))', '(A (FilePrintFormatted %s (# (Fld Name))))' % n)]:
+            trees += [fil, '(List %s %s)' % (std, fil), '(List %s %s)' % (fil, std), '(And %s (And %s (A (FilePrint %s))))' % (std, fil, sx_str('out'))]
+    return trees
+
+
+def special_name_texts():
+    return ['-print -fprint %s' % nm for nm in SPECIAL_NAMES if ' ' not in nm and not nm.startswith('-') and nm[0] not in '&>'] + \
+           ['-print0 -fprint0 %s -fprint0 out' % nm for nm in SPECIAL_NAMES[:6]] + \
+           ["-printf '%%p\\n' -fprintf %s '%%p\\n'" % nm for nm in SPECIAL_NAMES[:6]]
+
+
+def adjacent_format_trees():
+    """Two (three) formatted prints next to each other under every operator, with every combination of endings."""
+    ends = ENDINGS[:8] + ['(Lit %s)' % sx_str(' '), '(Fld Size)']
+    trees = []
+    for e1 in ends:
+        for e2 in ends:
+            a = '(A (PrintFormatted (# (Fld Name) %s)))' % e1
+            b = '(A (PrintFormatted (# (Fld DiskSizeBytes) %s)))' % e2
+            for op in ['And', 'Or', 'List']:
+                trees.append('(%s %s %s)' % (op, a, b))
+            trees.append('(And (And (T (Name %s)) %s) %s)' % (sx_str('n'), a, b))
+            trees.append('(Not (Prec (And %s (Prec %s))))' % (a, b)) if False else None
+            trees.append('(And %s (And %s (A (PrintFormatted (# (Fld Name) (Spc Newline))))))' % (a, b))
+    return [t for t in trees if t]
+
+
 def twin_texts():
     """The same through the parser (strings a bare word can spell)."""
     texts = []
@@ -354,6 +399,7 @@ def gen_resources(tier, rnd):
     lines += [T(t) for t in format_tail_trees()]
     # resources whose keys differ only up to a plausible normalisation (./ prefix, case, escaping, trimming, NFD)
     lines += [T(t) for t in twin_trees()]
+    lines += [T(t) for t in special_name_trees() + adjacent_format_trees()]
     # ... or that collide when a key is built by concatenating the string with a flag / kind / terminator
     lines += [T(t) for t in key_twin_trees()]
     lines = vary_options(lines, rnd)
@@ -384,6 +430,18 @@ def gen_small_trees(tier, rnd):
     n = 2000 if tier == 'quick' else 10000
     for _ in range(n):
         lines.append(T(rand_expr(rnd, rnd.randint(3, 7), supported_only=True, parser_shapes_only=True, p_action=rnd.choice([0, 0, 0.05, 0.3]))))
+    # the ONLY action first, then n further clauses (left-nested n levels above it), or under n negations
+    for n in [63, 64, 65, 127, 128, 129, 255, 256, 257, 300, 600]:
+        for act in ['(A Print)', '(A (FilePrint %s))' % sx_str('f'), '(A Quit)']:
+            for op, leaf in [('And', '(T True)'), ('Or', '(T False)'), ('List', '(T (Name %s))' % sx_str('x'))]:
+                t = act
+                for _ in range(n):
+                    t = '(%s %s %s)' % (op, t, leaf)
+                lines.append(T(t))
+            t = act
+            for _ in range(n):
+                t = '(Not %s)' % t
+            lines.append(T('(And (T True) %s)' % t))
     leaves2 = ['(T True)', '(T False)', '(T (Name %s))' % sx_str('x'), '(A Quit)', '(A PrintFid)', '(A PrintNull)']
     lines += [T(t) for t in small_trees(3 if tier == 'quick' else 4, leaves2)]
     lines = vary_options(lines, rnd, 0.15)
@@ -431,6 +489,7 @@ def gen_actions(tier, rnd):
     lines += [T(t) for t in format_tail_trees()[::2]]
     # destinations whose names differ only up to a plausible normalisation: two table entries, two tags
     lines += [T(t) for t in twin_trees() + key_twin_trees() if 'FilePrint' in t]
+    lines += [T(t) for t in special_name_trees() + adjacent_format_trees()]
     lines = vary_options(lines, rnd)
     # every octal escape value as the last element of a stdout format (is it the newline escape or not?)
     for v in range(0, 512):
@@ -463,7 +522,7 @@ def gen_histories_c15(tier, rnd):
               '( -name d -o -threads 3 ) -print', '-name e -threads 4 -fprint out', '! -depth -name f', '-threads 1 -depth -print0']
     # destinations / patterns that differ only up to a plausible normalisation (a table keyed by the cleaned-up name
     # would make the answer depend on hash order)
-    texts += twin_texts()
+    texts += twin_texts() + special_name_texts()
     seq = []
     for i, t in enumerate(texts):
         seq += [(i, t)] * 3
@@ -559,6 +618,18 @@ def gen_trees(tier, rnd):
     # random larger trees over everything supported
     for _ in range(3000 if tier == 'quick' else 60000):
         add(rand_expr(rnd, rnd.randint(1, 6), supported_only=True, parser_shapes_only=True, p_action=rnd.choice([0, 0.1, 0.3, 0.5])), 'random')
+    # two fields with a one-character literal between them (a generator that fuses neighbouring directives must write
+    # the same bytes for every file: the directed files include a top-level one and a deeply nested one)
+    pathish = ['Parents', 'Basename', 'Name', 'NameWithoutStartingPoint', 'StartingPoint']
+    for f1 in pathish:
+        for f2 in pathish:
+            for sep in ['/', '', ' ', '//', ':']:
+                mid = '(Lit %s) ' % sx_str(sep) if sep else ''
+                add('(A (PrintFormatted (# (Fld %s) %s(Fld %s) (Spc Newline))))' % (f1, mid, f2), 'field_pairs')
+    others = ['User', 'UserId', 'Group', 'GroupId', 'DiskSizeBytes', 'DiskSizeBlocks', 'InodeDecimal', 'Hardlinks', 'PermissionsOctal', 'Type', 'FileId']
+    for f1 in others + pathish:
+        for f2 in others[:5] + pathish[:2]:
+            add('(A (FilePrintFormatted %s (# (Fld %s) (Lit %s) (Fld %s) (Spc Newline))))' % (sx_str('o'), f1, sx_str('/'), f2), 'field_pairs')
     # two matchers / destinations whose strings differ only up to a plausible normalisation or collide under key
     # concatenation (they must stay two resources: the policy is executed on matching and near-miss names)
     for t in (twin_trees() + key_twin_trees())[::(4 if tier == 'quick' else 1)]:
